@@ -16,6 +16,9 @@ CHECKS = {
  "C04": ("same exhaustive sweep as C01 with a panic/termination oracle + exhaustive off-by-one dimension mutations (documented construction panic expected)",
          "Every enumerated well-formed program (incl. m=0, empty cones, singleton SOC/PSD, zero rows/columns, duplicate rows, 1e+-6 scalings) must construct and solve without panicking, end in a terminal status and respect max_iter; every single off-by-one dimension inconsistency must be rejected by the documented assertion.",
          "cone-membership and KKT evaluator in mc/src/oracle.rs are trusted; comparisons carry a 1e-6 relative slack plus the floating-point evaluation allowance 4(n+m+4)u*sum|terms|; PSD cones run on the harness's self-checking plain-Rust BLAS/LAPACK shims; decides the property for the enumerated lattice of problems/settings only; hangs are bounded by max_iter (checked) and the per-space wall-clock cap", "DESIGN.md §5 C04"),
+ "C09": ("bounded-exhaustive enumeration of all placements of infinity-like right-hand sides (5 values per row) over all cone lists of <=3 atoms / <=4 rows (thorough <=6) x presolve on/off x equilibrate on/off, plus all set_infinity/default_infinity/build/solve histories to depth 4 (thorough 6) in a dedicated serial process; independent drop-set oracle + bitwise differential against a hand-reduced, hand-capped fresh solver",
+         "Every placement and every history in the bound is executed on the real crate; the rows to drop are computed independently from b and the cone list (bound in force at build), dropped rows must come back as z=0, s=bound with the user's length and ordering, the internal b must be capped/reduced exactly, and the kept entries, status, iterations and objectives must equal bit for bit those of a solver built on the hand-reduced problem, which in turn is judged by the C01 oracle when it claims Solved.",
+         "reference built with presolve disabled (and the module bound parked at 1e300 in histories); threshold values keep clear of the 10-eps contraction", "DESIGN.md §5 C09"),
  "C10": ("bounded-exhaustive enumeration of all sparsity patterns x row/column magnitude assignments (1e-15..1e15) x P menu x cone lists x equilibrate_* settings on the real DefaultSolver::new; entry-for-entry oracle on the public data/equilibration fields",
          "Every enumerated problem (about 2e7 in quick) is constructed by the real constructor and the internal data are compared entry for entry with c*D*P*D, E*A*D, c*D*q, E*b of the user's data, together with the cumulative scaling bounds, reciprocals, unit scaling of all-zero rows/columns in scalar cones, constancy of E on every non-scalar cone and bitwise untouched data when disabled.",
          "relative 1e-13 on entries, 64-ulp slack on bounds, 8-ulp spread allowed for E on a non-scalar cone (see DESIGN.md false-alarm log)", "DESIGN.md §5 C10"),
